@@ -643,7 +643,7 @@ class PKey:
             else:
                 raise SSHException(
                     "unknown cipher `{}` used in private key file".format(
-                        cipher.decode("utf-8")
+                        cipher.decode("utf-8", "replace")
                     )
                 )
             # Encrypted private key.
@@ -657,25 +657,32 @@ class PKey:
             # Unpack salt and rounds from kdfoptions
             salt, rounds = self._uint32_cstruct_unpack(kdf_options, "su")
 
-            # run bcrypt kdf to derive key and iv/nonce (32 + 16 bytes)
-            key_iv = bcrypt.kdf(
-                b(password),
-                b(salt),
-                48,
-                rounds,
-                # We can't control how many rounds are on disk, so no sense
-                # warning about it.
-                ignore_few_rounds=True,
-            )
-            key = key_iv[:32]
-            iv = key_iv[32:]
+            try:
+                # run bcrypt kdf to derive key and iv/nonce (32 + 16 bytes)
+                key_iv = bcrypt.kdf(
+                    b(password),
+                    b(salt),
+                    48,
+                    rounds,
+                    # We can't control how many rounds are on disk, so no
+                    # sense warning about it.
+                    ignore_few_rounds=True,
+                )
+                key = key_iv[:32]
+                iv = key_iv[32:]
 
-            # decrypt private key blob
-            decryptor = Cipher(
-                algorithms.AES(key), mode(iv), default_backend()
-            ).decryptor()
-            decrypted_privkey = decryptor.update(privkey_blob)
-            decrypted_privkey += decryptor.finalize()
+                # decrypt private key blob
+                decryptor = Cipher(
+                    algorithms.AES(key), mode(iv), default_backend()
+                ).decryptor()
+                decrypted_privkey = decryptor.update(privkey_blob)
+                decrypted_privkey += decryptor.finalize()
+            except ValueError as e:
+                # empty salt/password, zero rounds, or a key blob that is not
+                # a whole number of cipher blocks
+                raise SSHException(
+                    "Can't decrypt private key file: {}".format(e)
+                )
         elif cipher == b("none") and kdfname == b("none"):
             # Unencrypted private key
             decrypted_privkey = privkey_blob
